@@ -202,7 +202,7 @@ func zzC04_PlanAtomic() {
 // compact with a stale temp file left behind by an earlier killed rewrite: the rewrite must not
 // inherit anything from it.
 func zzC03_CompactStaleTmp() {
-	root := zzFSInit("1;winv=1;clean=1;Results=0")
+	root := zzFSInit("1;winv=1;clean=1;nolinks=1;Results=0")
 	opts, dir := zzFSOpts(root)
 	g0, err0 := loadGraph(dir)
 	zzAssume(err0 == nil)
@@ -222,7 +222,7 @@ func zzC03_CompactStaleTmp() {
 // A rewriting command (compact, plan) killed at any system call: every later read succeeds and
 // still shows every acknowledged item; a later mutation works.
 func zzC03CrashDuringRewrite(cmd int) {
-	root := zzFSInit("1;winv=1;clean=1;Results=0")
+	root := zzFSInit("1;winv=1;clean=1;nolinks=1;Results=0")
 	opts, dir := zzFSOpts(root)
 	g0, err0 := loadGraph(dir)
 	zzAssume(err0 == nil)
@@ -265,8 +265,10 @@ func zzC03CrashDuringRewrite(cmd int) {
 func zzC03_CrashDuringCompact() { zzC03CrashDuringRewrite(0) }
 func zzC03_CrashDuringPlan()    { zzC03CrashDuringRewrite(1) }
 
-// CUT used by the storage-protocol units: the derived, display-only Deps/RDeps slices are not
-// computed (sortedKeys summarised as "no keys"); nothing these units assert reads them.
+// CUT used by the storage-protocol units: the derived Deps/RDeps slices are not computed
+// (sortedKeys summarised as "no keys"); nothing these units assert reads them. compactEvents also
+// enumerates the edges through sortedKeys, so the units that compact start from logs without
+// link / unlink lines (nolinks=1), for which the summary is exact.
 func zzSortedKeysCut(items map[string]struct{}) []string { return nil }
 
 // ---------------------------------------------------------------- C13
@@ -276,7 +278,7 @@ func zzSortedKeysCut(items map[string]struct{}) []string { return nil }
 func zzC13ReaderDuring(writer int) {
 	spec := "2;winv=1;clean=1;Results=0"
 	if writer >= 2 {
-		spec = "1;winv=1;clean=1;Results=0" // the rewriting commands replay and re-emit the whole log
+		spec = "1;winv=1;clean=1;nolinks=1;Results=0" // the rewriting commands replay and re-emit the whole log
 	}
 	root := zzFSInit(spec)
 	opts, dir := zzFSOpts(root)
